@@ -47,6 +47,9 @@ PLANS = {
     "C15": dict(level="exploration", stages=both("c15"),
                 assumptions=["big-integer definitions in harness/vh/src/props/c15.rs (cross-checked against the reference model at start-up) are the FIPS 204 definitions of the auxiliary functions",
                              "'documented input range' = the debug_assert preconditions / doc comments in helpers.rs"]),
+    "C18": dict(level="exploration", stages=both("c18"),
+                assumptions=ASSUME_REF + ["the schoolbook negacyclic product in i128 (refimpl::schoolbook_mul) is the definition of multiplication in Z_q[X]/(X^256+1)",
+                                          "no adversarial witness is constructible for ML-DSA-44 with this method (DESIGN 3.2); for 44 the check relies on extremal patterns"]),
 }
 
 
